@@ -407,8 +407,11 @@ def hist_c07(seed, cls=None):
 
 def hist_c08(seed, cls=None):
     rng = random.Random(seed)
-    if cls is None and rng.random() < 0.1:
+    r = rng.random()
+    if cls is None and r < 0.1:
         spec = missing_like_zero_spec(rng)
+    elif cls is None and r < 0.2:
+        spec = sparse_columns_spec(rng)
     else:
         spec = random_object_spec(rng, cls, n=rng.choice([2, 3, 5, 8, 10, 20, 40]), degenerate=True)
     o, X, y, kw = E.build(spec)
@@ -581,7 +584,16 @@ def _bad_call(rng, kind, spec, h, idx, fitted):
         return fit_with(X, yb)
     if kind == 'y_index':
         yb = y.copy()
-        yb.index = [i + 1 for i in range(n)]
+        style = rng.choice(['shifted', 'permuted', 'reversed'])
+        if style == 'shifted' or n < 3:
+            yb.index = [i + 1 for i in range(n)]
+        elif style == 'reversed':         # the same labels in another order
+            yb = yb.iloc[::-1]
+        else:
+            ids = list(range(n))
+            while ids == list(range(n)):
+                rng.shuffle(ids)
+            yb = yb.iloc[ids]
         return fit_with(X, yb)
     if kind == 'x_not_frame':
         return fit_with(X.values, y)
@@ -790,6 +802,23 @@ def missing_like_zero_spec(rng):
             'params': {'sort_by': ('kruskal' if cls == 'ContinuousCarver' else rng.choice(['cramerv', 'tschuprowt'])),
                        'min_freq': [1, 10], 'min_freq_mod': None, 'max_n_mod': rng.choice([3, 4, 5]), 'dropna': True,
                        'output_dtype': rng.choice(['float', 'str']), 'copy': True}}
+
+
+def sparse_columns_spec(rng):
+    """A carver sample with several identifier-like qualitative columns (no modality reaches min_freq: the
+    Discretizer step drops them one after the other) next to ordinary features."""
+    cls = rng.choice(['BinaryCarver', 'ContinuousCarver', 'MulticlassCarver'])
+    spec = random_object_spec(rng, cls, n=rng.randint(24, 48), nfeat=rng.randint(1, 2))
+    n = len(spec['y'])
+    feats = dict(spec['features'])
+    for j in range(rng.randint(2, 3)):
+        feats['id%d' % j] = {'kind': 'categ', 'values': ['u%d_%02d' % (j, (i * (j + 1)) % n) for i in range(n)]}
+    names = list(feats)
+    rng.shuffle(names)
+    spec['features'] = {f: feats[f] for f in names}
+    spec['params']['min_freq'] = rng.choice([[1, 5], [1, 4], [1, 10]])
+    spec.pop('dev', None)
+    return spec
 
 
 def hist_c03(seed, cls=None):
